@@ -1,5 +1,6 @@
 import Cpppo.Props.C03
 import Cpppo.Props.C04
 import Cpppo.Props.C05
+import Cpppo.Props.C06
 import Cpppo.Props.C07
 import Cpppo.Props.C19
